@@ -25,105 +25,562 @@ def class_attr_names(ci):
     return names
 
 
+ENCRYPT_OPS = {  # class -> (roles of the positional parameters, ESK packet class, -, position of the cipher in encrypt_sk (None: s2k), plaintext)
+    'PGPMessage': (('self', 'passphrase', 'sessionkey'), 'SKESessionKey', 1, None, 'self'),
+    'PGPKey': (('self', 'message', 'sessionkey'), 'PKESessionKey', 2, 1, 'message'),
+}
+
+
+def encrypt_operation_paths(prog, cls, given, already=False):
+    """The returning paths of <cls>.encrypt on a not yet encrypted message, with the session-key packet call, the container call
+    and what reaches them.  Parameters are bound by position, the packets are recognised by their CLASS (not by the local that holds
+    them): -> (fi, [dict(state, esk, data, esk_key, esk_alg, data_key, data_alg, plaintext, esk_obj)])."""
+    from . import taint
+    roles, esk_cls, ki, ai, subject = ENCRYPT_OPS[cls]
+    fi = prog.method('pgpy.pgp', cls, 'encrypt')
+    args = {'sessionkey': Sym('sessionkey', nonnull=True) if given else Const(None)}
+    outs = taint.run_roles(prog, fi, roles, kwarg='prefs', args=args,
+                           bind={'self.is_encrypted': Const(already), 'message.is_encrypted': Const(already)})
+    res = []
+    for s in outs:
+        if s.raised:
+            continue
+        esk = [c for c in s.calls if c[0].endswith('.encrypt_sk') and taint.obj_of_class(s, c[0][:-len('.encrypt_sk')], esk_cls)]
+        data = [c for c in s.calls if c[0].endswith('.encrypt') and taint.obj_of_class(s, c[0][:-len('.encrypt')], 'IntegrityProtectedSKEData', 'SKEData')]
+        d = {'state': s, 'esk': esk, 'data': data, 'subject': subject}
+        if len(esk) == 1:
+            d['esk_obj'] = esk[0][0][:-len('.encrypt_sk')]
+        if len(esk) == 1 and len(data) == 1:
+            d['esk_obj'] = esk[0][0][:-len('.encrypt_sk')]
+            ocls = taint.objects(s)[d['esk_obj']].cls
+            ea = taint.bind_call(esk[0], ocls.find_method('encrypt_sk').params[1:])
+            dcls = taint.objects(s)[data[0][0][:-len('.encrypt')]].cls
+            da = taint.bind_call(data[0], dcls.find_method('encrypt').params[1:])
+            eroles = ('passphrase', 'sk') if ai is None else ('pk', 'symalg', 'symkey')
+            ea = dict(zip(eroles, [ea.get(p) for p in ocls.find_method('encrypt_sk').params[1:]]))
+            da = dict(zip(('key', 'alg', 'data'), [da.get(p) for p in dcls.find_method('encrypt').params[1:]]))
+            d['esk_key'] = ea.get('sk' if ai is None else 'symkey')
+            if ai is not None:
+                d['esk_alg'] = [ea.get('symalg')]
+            else:
+                d['esk_alg'] = [v for p, v, l, _ in s.stores if p == d['esk_obj'] + '.s2k.encalg']
+            d['data_key'], d['data_alg'], d['plaintext'] = da.get('key'), da.get('alg'), da.get('data')
+        res.append(d)
+    return fi, res
+
+
 def check_operation_wiring(rep, prog, rid):
     """One cipher_algo and one session key reach the ESK packet and the container, in both encrypt operations."""
-    for cls, esk_key_index, esk_alg in (('PGPMessage', 1, None), ('PGPKey', 2, 1)):
-        fi = prog.method('pgpy.pgp', cls, 'encrypt')
-        rep.saw(fn=fi)
+    from . import taint
+    for cls in ('PGPMessage', 'PGPKey'):
         for given in (False, True):
-            args = {'sessionkey': Sym('sessionkey', nonnull=True) if given else Const(None)}
-            sc = Scenario(args=args, bind={'self.is_encrypted': Const(False), 'message.is_encrypted': Const(False)}, inline=noinline)
-            for s in Interp(prog, sc).run(fi):
-                if s.raised:
-                    continue
-                esk = [c for c in s.calls if c[0].split('.')[-1] == 'encrypt_sk']
-                data = [c for c in s.calls if c[0].endswith('.encrypt') and c[0].split('.')[-2:-1] == ['skedata']]
-                scen = '%s.encrypt, session key %s' % (cls, 'supplied' if given else 'generated')
-                if len(esk) != 1 or len(data) != 1:
-                    rep.violation(rid, '%s.encrypt' % cls, '%d ESK / %d container encryptions' % (len(esk), len(data)),
+            fi, paths = encrypt_operation_paths(prog, cls, given)
+            rep.saw(fn=fi)
+            scen = '%s.encrypt, session key %s' % (cls, 'supplied' if given else 'generated')
+            if not paths:
+                raise AnalysisError('%s.encrypt: no returning path for a message that is not yet encrypted' % cls)
+            for d in paths:
+                if len(d['esk']) != 1 or len(d['data']) != 1:
+                    rep.violation(rid, '%s.encrypt' % cls, '%d ESK / %d container encryptions' % (len(d['esk']), len(d['data'])),
                                   'expected one session-key packet and one container encryption', where=fi.where, scenario=scen)
                     continue
-                k1 = esk[0][1][esk_key_index] if len(esk[0][1]) > esk_key_index else None
-                k2, alg2 = (data[0][1] + [None, None])[:2]
-                ok = k1 == k2 and k1 is not None
-                if esk_alg is not None:
-                    ok = ok and esk[0][1][esk_alg] == alg2
-                else:
-                    enc = [v for p, v, l, _ in s.stores if p.endswith('.s2k.encalg')]
-                    ok = ok and enc == [alg2]
+                k1, k2, alg2 = d['esk_key'], d['data_key'], d['data_alg']
+                ok = k1 == k2 and k1 is not None and d['esk_alg'] == [alg2]
                 rep.check(ok, rid, '%s.encrypt' % cls, '%s: ESK(key=%s) container(key=%s, cipher=%s)' % (scen, k1, k2, alg2),
                           'the session key and cipher recorded in the session-key packet must be the ones the container is encrypted with',
                           where=fi.where, scenario=scen)
+                # the result carries the session-key packet and the container, and not the plaintext message itself
+                st = d['state']
+                ret = render(st.ret) if st.ret is not None else ''
+                data_obj = d['data'][0][0][:-len('.encrypt')]
+                parts = _or_parts(ret)
+                fresh = [x for x in parts if re.match(r'^(PGPMessage\(\)|<PGPMessage(#\d+)?>)$', x)]
+                ok = sorted(x for x in parts if x not in fresh) == sorted([d['esk_obj'], data_obj]) and len(fresh) == 1
+                rep.check(ok, rid, '%s.encrypt' % cls, '%s: returns %s' % (scen, ret[:120]),
+                          'the encrypted message returned must consist of the session-key packet and the encrypted container (not the plaintext)',
+                          where=fi.where, expected='<message> | %s | %s' % (d['esk_obj'], data_obj), found=ret, scenario=scen)
                 # the plaintext is the serialised message
-                pt = data[0][1][2] if len(data[0][1]) > 2 else None
-                want = 'self.__bytes__()' if cls == 'PGPMessage' else 'message.__bytes__()'
-                rep.check(pt in (want, want.replace('__bytes__', '__bytearray__')), rid, '%s.encrypt' % cls, '%s: plaintext %s' % (scen, pt), 'the container holds the whole serialised message',
-                          where=fi.where, expected=want, found=pt, scenario=scen)
+                pt = d['plaintext']
+                want = '%s.__bytes__()' % d['subject']
+                rep.check(pt in (want, want.replace('__bytes__', '__bytearray__'), d['subject']), rid, '%s.encrypt' % cls, '%s: plaintext %s' % (scen, pt),
+                          'the container holds the whole serialised message', where=fi.where, expected=want, found=pt, scenario=scen)
+
+
+def _or_parts(text):
+    """Operands of a chain of `|` / `|=` compositions: '((a | b) | c)' -> ['a', 'b', 'c']."""
+    from . import taint
+    t = taint.strip_parens(text or '')
+    parts = taint._split_top(t, ' | ')
+    if len(parts) == 1:
+        return [t]
+    out = []
+    for p in parts:
+        out.extend(_or_parts(p))
+    return out
+
+
+def _exception_names(t, fi, depth=0):
+    """Class names an `except <t>` clause catches: a name, a tuple, or a class- / module-level constant holding such a tuple."""
+    if isinstance(t, ast.Tuple):
+        return [x for e in t.elts for x in _exception_names(e, fi, depth + 1)]
+    if depth < 3:
+        const = None
+        if isinstance(t, ast.Attribute) and isinstance(t.value, ast.Name) and fi.cls is not None and \
+                (t.value.id in (fi.params[:1] or ['self']) or t.value.id == fi.cls.name):
+            const = fi.cls.find_attr(t.attr)
+        elif isinstance(t, ast.Name):
+            local = [n.value for n in ast.walk(fi.node) if isinstance(n, ast.Assign) and len(n.targets) == 1 and
+                     isinstance(n.targets[0], ast.Name) and n.targets[0].id == t.id]
+            const = local[0] if len(local) == 1 else fi.module.assigns.get(t.id)
+        if isinstance(const, (ast.Tuple, ast.Name, ast.Attribute)) and (isinstance(const, ast.Tuple) or dotted(const) != dotted(t)):
+            return _exception_names(const, fi, depth + 1)
+    return [(dotted(t) or '?').split('.')[-1]]
+
+
+WRONG_CANDIDATE_FAILURES = ('TypeError', 'ValueError', 'NotImplementedError', 'PGPDecryptionError')
+
+
+def check_candidate_search(rep, prog, rid):
+    """PGPMessage.decrypt tries every passphrase session-key packet in turn.  A wrong candidate can fail at EITHER step - recovering the
+    session key (garbage cipher octet: ValueError / NotImplementedError, wrong sizes: TypeError / ValueError) and decrypting + parsing
+    the container with it (unsupported cipher: NotImplementedError, MDC / quick-check mismatch: PGPDecryptionError, garbage packets:
+    ValueError / TypeError) - and each such failure must lead to the NEXT candidate.  For every step call inside the candidate loop the
+    exception classes caught around it by handlers that continue the search must cover all of them."""
+    fi = prog.method('pgpy.pgp', 'PGPMessage', 'decrypt')
+    rep.saw(fn=fi)
+    universe = _sessionkey_universe(prog)
+    loops = [it for it in _sessionkey_iterations(fi, universe) if it[2][0] == 'loop']
+    if not loops:
+        raise AnalysisError('PGPMessage.decrypt: no loop over the session-key packets')
+    builtin_bases = {'TypeError': {'Exception', 'BaseException'}, 'ValueError': {'Exception', 'BaseException'},
+                     'NotImplementedError': {'RuntimeError', 'Exception', 'BaseException'}}
+
+    def bases(name):
+        out = set(builtin_bases.get(name, ()))
+        for ci in prog.classes_by_name.get(name, []):
+            out |= {c.name for c in ci.mro()} | {'Exception', 'BaseException'}
+            for b in ci.external_bases() if hasattr(ci, 'external_bases') else []:
+                out.add(str(b).split('.')[-1])
+        return out | {name}
+    nsteps = 0
+    for var, S, shape, lineno, ittext, loop in loops:
+        parent = {}
+        for n in ast.walk(loop):
+            for ch in ast.iter_child_nodes(n):
+                parent[id(ch)] = n
+        for call in [n for b in loop.body for n in ast.walk(b) if isinstance(n, ast.Call) and isinstance(n.func, ast.Attribute)]:
+            f = call.func
+            step = None
+            if f.attr == 'decrypt_sk':
+                step = 'recovering the session key'
+            elif f.attr == 'decrypt' and len(call.args) + len(call.keywords) == 2:
+                step = 'decrypting the container with it'
+            elif f.attr == 'parse' and any(isinstance(x, ast.Call) and isinstance(x.func, ast.Attribute) and x.func.attr == 'decrypt'
+                                           for a in call.args for x in ast.walk(a)):
+                step = 'parsing the decrypted container'
+            if step is None:
+                continue
+            nsteps += 1
+            caught = set()
+            node = call
+            while id(node) in parent and node is not loop:
+                up = parent[id(node)]
+                if isinstance(up, ast.Try) and any(node is b for b in up.body):
+                    for h in up.handlers:
+                        leaves = h.body and isinstance(h.body[-1], (ast.Raise, ast.Return, ast.Break))
+                        if leaves:
+                            continue
+                        caught |= set(_exception_names(h.type, fi)) if h.type is not None else {'BaseException'}
+                node = up
+            missing = [e for e in WRONG_CANDIDATE_FAILURES if not (bases(e) & caught)]
+            rep.check(not missing, rid, 'PGPMessage.decrypt', '%s: failures that end the search: %s' % (step, missing),
+                      'with several passphrase recipients a wrong candidate can fail while %s with any of %s; each must lead to the next '
+                      'session-key packet, not out of decrypt()' % (step, ', '.join(WRONG_CANDIDATE_FAILURES)),
+                      where='%s:%d' % (fi.module.relpath, call.lineno), expected='caught and continued: %s' % ', '.join(WRONG_CANDIDATE_FAILURES),
+                      found='caught around this call: %s' % sorted(caught))
+    if nsteps < 2:
+        raise AnalysisError('PGPMessage.decrypt: the two steps of a decryption attempt were not found inside the candidate loop')
+
+
+def check_readdressing(rep, prog, rid):
+    """Encrypting an already encrypted message adds a recipient: the result is that message plus the new session-key packet."""
+    from . import taint
+    for cls in ('PGPMessage', 'PGPKey'):
+        fi, paths = encrypt_operation_paths(prog, cls, True, already=True)
+        if not paths:
+            raise AnalysisError('%s.encrypt: no returning path for an already encrypted message' % cls)
+        for d in paths:
+            ret = render(d['state'].ret) if d['state'].ret is not None else ''
+            parts = _or_parts(ret)
+            fresh = [x for x in parts if re.match(r'^(PGPMessage\(\)|<PGPMessage(#\d+)?>)$', x)]
+            # the caller's message ITSELF (not a copy: a copied container packet has lost its header) plus the new packet
+            ok = len(d['esk']) == 1 and not d['data'] and sorted(x for x in parts if x not in fresh) == sorted([d['esk_obj'], d['subject']]) and \
+                len(fresh) <= 1
+            rep.check(ok, rid, '%s.encrypt' % cls, 'already encrypted: returns %s' % ret[:120],
+                      'for a message that is already encrypted the result must be that message together with the new session-key packet',
+                      where=fi.where, expected='%s | <session-key packet>' % d['subject'], found=ret, scenario='already encrypted')
+
+
+def _sessionkey_universe(prog):
+    return [prog.cls('pgpy.packet.packets', 'PKESessionKeyV3'), prog.cls('pgpy.packet.packets', 'SKESessionKeyV4')]
+
+
+class _Narrow(object):
+    """Type-state of one variable that ranges over the heterogeneous session-key list: the set of packet classes it can still be.
+    isinstance / hasattr tests narrow it (and / or / not / if / conditional expression / guard clause that leaves the iteration);
+    a read of `var.attr` is reported when some remaining class does not have the attribute."""
+    def __init__(self, var, universe):
+        self.var = var
+        self.universe = frozenset(universe)
+        self.attrs = {c: class_attr_names(c) for c in universe}
+        self.bad = []           # (attr, lineno)
+        # a method every class has, but with different parameters, is class specific as a CALL (decrypt_sk(pk) vs decrypt_sk(passphrase))
+        self.sigs = {}
+        for c in universe:
+            for name in self.attrs[c]:
+                f = c.find_method(name)
+                if f is not None:
+                    self.sigs.setdefault(name, {})[c] = tuple(f.params[1:])
+
+    def _is_var(self, n):
+        return isinstance(n, ast.Name) and n.id == self.var
+
+    def _classes(self, tnode, S):
+        names = []
+        for t in (tnode.elts if isinstance(tnode, ast.Tuple) else [tnode]):
+            d = dotted(t)
+            if d is None:
+                return None
+            names.append(d.split('.')[-1])
+        return frozenset(c for c in S if any(n in {x.name for x in c.mro()} for n in names))
+
+    def test(self, n, S):
+        """-> (classes when n is true, classes when n is false); reads inside n are checked under the state they execute in."""
+        if isinstance(n, ast.BoolOp):
+            if isinstance(n.op, ast.And):
+                cur, false = S, frozenset()
+                for v in n.values:
+                    t, f = self.test(v, cur)
+                    false |= f
+                    cur = t
+                return cur, false
+            cur, true = S, frozenset()
+            for v in n.values:
+                t, f = self.test(v, cur)
+                true |= t
+                cur = f
+            return true, cur
+        if isinstance(n, ast.UnaryOp) and isinstance(n.op, ast.Not):
+            t, f = self.test(n.operand, S)
+            return f, t
+        if isinstance(n, ast.Call) and dotted(n.func) == 'isinstance' and len(n.args) == 2 and self._is_var(n.args[0]):
+            t = self._classes(n.args[1], S)
+            if t is not None:
+                return t, S - t
+        if isinstance(n, ast.Call) and dotted(n.func) == 'hasattr' and len(n.args) == 2 and self._is_var(n.args[0]) and \
+                isinstance(n.args[1], ast.Constant):
+            t = frozenset(c for c in S if n.args[1].value in self.attrs[c])
+            return t, S - t
+        if isinstance(n, ast.Compare) and len(n.ops) == 1 and isinstance(n.ops[0], (ast.Is, ast.IsNot, ast.Eq, ast.NotEq)) and \
+                isinstance(n.left, ast.Call) and dotted(n.left.func) == 'type' and len(n.left.args) == 1 and self._is_var(n.left.args[0]):
+            t = self._classes(n.comparators[0], S)
+            if t is not None:
+                exact = frozenset(c for c in t if c.name == (dotted(n.comparators[0]) or '').split('.')[-1])
+                return (exact, S) if isinstance(n.ops[0], (ast.Is, ast.Eq)) else (S, exact)
+        self.expr(n, S)
+        return S, S
+
+    def expr(self, n, S):
+        if n is None:
+            return
+        if isinstance(n, (ast.BoolOp, ast.UnaryOp)) and (isinstance(n, ast.BoolOp) or isinstance(n.op, ast.Not)):
+            self.test(n, S)
+            return
+        if isinstance(n, ast.IfExp):
+            t, f = self.test(n.test, S)
+            self.expr(n.body, t)
+            self.expr(n.orelse, f)
+            return
+        if isinstance(n, ast.Call) and isinstance(n.func, ast.Attribute) and self._is_var(n.func.value) and \
+                len({self.sigs.get(n.func.attr, {}).get(c) for c in S}) > 1:
+            self.bad.append((n.func.attr + '()', getattr(n, 'lineno', 0)))
+        if isinstance(n, ast.Attribute) and self._is_var(n.value):
+            if S and any(n.attr not in self.attrs[c] for c in S):
+                self.bad.append((n.attr, getattr(n, 'lineno', 0)))
+            return
+        if isinstance(n, (ast.ListComp, ast.SetComp, ast.GeneratorExp, ast.DictComp)):
+            cur = S
+            for g in n.generators:
+                self.expr(g.iter, cur)
+                for c in g.ifs:
+                    cur = self.test(c, cur)[0]
+            for e in ([n.key, n.value] if isinstance(n, ast.DictComp) else [n.elt]):
+                self.expr(e, cur)
+            return
+        for ch in ast.iter_child_nodes(n):
+            if isinstance(ch, ast.expr):
+                self.expr(ch, S)
+            elif isinstance(ch, (ast.keyword, ast.Slice)):
+                for x in ast.iter_child_nodes(ch):
+                    if isinstance(x, ast.expr):
+                        self.expr(x, S)
+
+    def truthy_returns(self, stmts, S):
+        """For a predicate body: the classes for which some `return` can yield a truthy value."""
+        self._rets = []
+        self._collect = True
+        try:
+            self.block(stmts, S)
+        finally:
+            self._collect = False
+        out = frozenset()
+        for val, cur in self._rets:
+            if val is None or (isinstance(val, ast.Constant) and not val.value):
+                continue
+            out |= self.test(val, cur)[0] if not isinstance(val, ast.Constant) else cur
+        return out
+
+    def block(self, stmts, S):
+        """-> classes the variable can be when the block is left normally (None when it always leaves the iteration)."""
+        for st in stmts:
+            if S is None:
+                break
+            S = self.stmt(st, S)
+        return S
+
+    def stmt(self, st, S):
+        if isinstance(st, ast.If):
+            t, f = self.test(st.test, S)
+            a = self.block(st.body, t)
+            b = self.block(st.orelse, f)
+            if a is None:
+                return b
+            if b is None:
+                return a
+            return a | b
+        if isinstance(st, (ast.Continue, ast.Break, ast.Return, ast.Raise)):
+            if isinstance(st, ast.Return) and getattr(self, '_collect', False):
+                self._rets.append((st.value, S))
+                return None             # the value is analysed by truthy_returns under this state
+            for ch in ast.iter_child_nodes(st):
+                if isinstance(ch, ast.expr):
+                    self.expr(ch, S)
+            return None
+        if isinstance(st, (ast.For, ast.While)):
+            if isinstance(st, ast.For):
+                self.expr(st.iter, S)
+            else:
+                self.test(st.test, S)
+            self.block(st.body, S)
+            self.block(st.orelse, S)
+            return S
+        if isinstance(st, ast.Try):
+            outs = [self.block(st.body + st.orelse, S)]
+            for h in st.handlers:
+                outs.append(self.block(h.body, S))
+            outs = [o for o in outs if o is not None]
+            res = frozenset().union(*outs) if outs else None
+            if st.finalbody:
+                self.block(st.finalbody, S)
+            return res
+        if isinstance(st, ast.With):
+            for it in st.items:
+                self.expr(it.context_expr, S)
+            return self.block(st.body, S)
+        if isinstance(st, (ast.FunctionDef, ast.AsyncFunctionDef, ast.ClassDef)):
+            return S
+        if isinstance(st, (ast.Assign, ast.AugAssign, ast.AnnAssign)):
+            tg = st.targets if isinstance(st, ast.Assign) else [st.target]
+            if any(self._is_var(t) for t in tg):
+                self.expr(st.value, S)
+                return frozenset()          # the variable is rebound: no longer an element of the list
+        for ch in ast.iter_child_nodes(st):
+            if isinstance(ch, ast.expr):
+                self.expr(ch, S)
+        return S
+
+
+def _sessionkey_iterations(fn, universe):
+    """Binding constructs of fn whose variable ranges over a `_sessionkeys` list (directly, through a local alias, through
+    iter/list/tuple/reversed/sorted/enumerate/filter or through an identity comprehension):
+    -> [(var name, classes the elements can be, [(kind, nodes)], lineno, iterable text)]."""
+    assigns = {}
+    for n in ast.walk(fn.node):
+        if isinstance(n, ast.Assign) and len(n.targets) == 1 and isinstance(n.targets[0], ast.Name):
+            assigns.setdefault(n.targets[0].id, []).append(n.value)
+
+    local_defs = {n.name: n for n in ast.walk(fn.node) if isinstance(n, ast.FunctionDef) and n is not fn.node}
+
+    def elements(it, depth=0):
+        """Classes of the elements of iterable `it` if it derives from a session-key list, else None."""
+        if depth > 4:
+            return None
+        if isinstance(it, ast.Attribute) and it.attr == '_sessionkeys':
+            return frozenset(universe)
+        if isinstance(it, ast.Name) and len(assigns.get(it.id, [])) == 1:
+            return elements(assigns[it.id][0], depth + 1)
+        if isinstance(it, ast.Call) and dotted(it.func) in ('iter', 'list', 'tuple', 'reversed', 'sorted', 'set', 'frozenset') and it.args:
+            return elements(it.args[0], depth + 1)
+        if isinstance(it, ast.Call) and dotted(it.func) == 'filter' and len(it.args) == 2:
+            S = elements(it.args[1], depth + 1)
+            lam = it.args[0]
+            if S is not None and isinstance(lam, ast.Lambda) and len(lam.args.args) == 1:
+                nr = _Narrow(lam.args.args[0].arg, universe)
+                return nr.test(lam.body, S)[0]
+            if S is not None and isinstance(lam, ast.Name) and lam.id in local_defs and len(local_defs[lam.id].args.args) == 1:
+                # filter(<local predicate>, ...): the elements for which the predicate can return something truthy
+                d = local_defs[lam.id]
+                nr = _Narrow(d.args.args[0].arg, universe)
+                return nr.truthy_returns(d.body, S)
+            if S is not None and isinstance(lam, ast.Attribute) and fn.cls is not None and fn.cls.find_method(lam.attr) is not None:
+                # filter(Class.pred / self.pred, ...): a one-argument predicate method of the same class
+                d = fn.cls.find_method(lam.attr).node
+                static = any(dotted(x) == 'staticmethod' for x in d.decorator_list)
+                ps = d.args.args if static else d.args.args[1:]
+                if len(ps) == 1:
+                    nr = _Narrow(ps[0].arg, universe)
+                    return nr.truthy_returns(d.body, S)
+            return S
+        if isinstance(it, (ast.GeneratorExp, ast.ListComp, ast.SetComp)) and len(it.generators) == 1 and \
+                isinstance(it.generators[0].target, ast.Name) and isinstance(it.elt, ast.Name) and it.elt.id == it.generators[0].target.id:
+            g = it.generators[0]
+            S = elements(g.iter, depth + 1)
+            if S is None:
+                return None
+            nr = _Narrow(g.target.id, universe)
+            for c in g.ifs:
+                S = nr.test(c, S)[0]
+            return S
+        return None
+
+    def target_var(target, it):
+        if isinstance(it, ast.Call) and dotted(it.func) == 'enumerate' and it.args and isinstance(target, ast.Tuple) and len(target.elts) == 2:
+            return target.elts[1], it.args[0]
+        return target, it
+
+    out = []
+    for node in ast.walk(fn.node):
+        if isinstance(node, (ast.GeneratorExp, ast.ListComp, ast.SetComp, ast.DictComp)):
+            for gi, g in enumerate(node.generators):
+                tv, it = target_var(g.target, g.iter)
+                S = elements(it)
+                if S is None or not isinstance(tv, ast.Name):
+                    continue
+                later = [x for h in node.generators[gi + 1:] for x in [h.iter] + list(h.ifs)]
+                body = [node.key, node.value] if isinstance(node, ast.DictComp) else [node.elt]
+                out.append((tv.id, S, ('comp', list(g.ifs), later + body), node.lineno, ast.unparse(g.iter), node))
+        elif isinstance(node, ast.For):
+            tv, it = target_var(node.target, node.iter)
+            S = elements(it)
+            if S is None or not isinstance(tv, ast.Name):
+                continue
+            out.append((tv.id, S, ('loop', list(node.body)), node.lineno, ast.unparse(node.iter), node))
+    return out
 
 
 def check_sessionkey_consumers(rep, prog, rid):
-    """Every iteration over a `_sessionkeys` list either filters by isinstance or touches only attributes common to both packet classes."""
-    pk = prog.cls('pgpy.packet.packets', 'PKESessionKeyV3')
-    sk = prog.cls('pgpy.packet.packets', 'SKESessionKeyV4')
-    common = class_attr_names(pk) & class_attr_names(sk)
+    """Every iteration over a `_sessionkeys` list reads class-specific fields of an element only where the element is known (isinstance
+    filter / guard) to be of a class that has them.  Decided by narrowing the set of packet classes the loop variable can be along the
+    control flow of the loop body / comprehension - loop vs comprehension, guard clause vs nested if, operand order do not matter."""
+    universe = _sessionkey_universe(prog)
     n = 0
     for fn in prog.all_functions():
-        for node in ast.walk(fn.node):
-            gens = []
-            if isinstance(node, (ast.GeneratorExp, ast.ListComp, ast.SetComp, ast.DictComp)):
-                for g in node.generators:
-                    gens.append((g.target, g.iter, [node.elt if not isinstance(node, ast.DictComp) else node.value] + list(g.ifs), g.ifs))
-            elif isinstance(node, ast.For):
-                gens.append((node.target, node.iter, list(node.body), []))
-            for target, it, uses, ifs in gens:
-                if '_sessionkeys' not in ast.unparse(it) or not isinstance(target, ast.Name):
-                    continue
-                # an inner generator may already have filtered
-                pre_filtered = 'isinstance' in ast.unparse(it)
-                var = target.id
-                n += 1
-                touched = set()
-                for u in uses:
-                    for x in ast.walk(u):
-                        if isinstance(x, ast.Attribute) and isinstance(x.value, ast.Name) and x.value.id == var:
-                            touched.add(x.attr)
-                specific = sorted(a for a in touched if a not in common)
-                filt = pre_filtered or any(isinstance(c, ast.Call) and dotted(c.func) == 'isinstance' and c.args and
-                                           isinstance(c.args[0], ast.Name) and c.args[0].id == var
-                                           for i in ifs for c in ast.walk(i))
-                # the isinstance test must come first in an `and` chain so that it guards the attribute reads
-                first_ok = True
-                for i in ifs:
-                    if isinstance(i, ast.BoolOp) and isinstance(i.op, ast.And):
-                        f0 = i.values[0]
-                        if specific and not (isinstance(f0, ast.Call) and dotted(f0.func) == 'isinstance'):
-                            first_ok = False
-                rep.check(not specific or (filt and first_ok), rid, fn.qualname, 'iteration over %s touching %s' % (ast.unparse(it)[:50], specific),
-                          'a message can carry public-key and passphrase session-key packets at once; class-specific fields %s are read '
-                          'without an isinstance filter' % specific, where='%s:%d' % (fn.module.relpath, node.lineno),
-                          expected='isinstance(%s, <class>) filter' % var, found=ast.unparse(node)[:160])
+        for var, S, shape, lineno, ittext, _node in _sessionkey_iterations(fn, universe):
+            n += 1
+            nr = _Narrow(var, universe)
+            if shape[0] == 'comp':
+                cur = S
+                for c in shape[1]:
+                    cur = nr.test(c, cur)[0]
+                for e in shape[2]:
+                    nr.expr(e, cur)
+            else:
+                nr.block(shape[1], S)
+            specific = sorted(set(a for a, _ in nr.bad))
+            rep.check(not specific, rid, fn.qualname, 'iteration over %s touching %s' % (ittext[:50], specific),
+                      'a message can carry public-key and passphrase session-key packets at once; class-specific fields %s are read '
+                      'without an isinstance filter' % specific, where='%s:%d' % (fn.module.relpath, lineno),
+                      expected='isinstance(%s, <class>) filter before %s' % (var, specific), found=ittext[:160])
     return n
 
 
+def _selection_condition(s, recv, call):
+    """How the element `recv` (receiver of decrypt_sk) was chosen from message._sessionkeys on this path:
+    -> (bound variable, condition text) or None when the receiver is not an element of that list.
+    Understood: next(...) / [0] / iter / list / tuple around a (chain of) filtered comprehension(s), and a selection LOOP over the
+    list (the element is bound or used under the conditions decided in that iteration).  Anything else that still mentions the list
+    is an AnalysisError."""
+    from . import taint
+    t = recv
+    while True:
+        r = taint.split_args(t)
+        if r is not None and r[0] in ('next', 'iter', 'list', 'tuple') and r[1]:
+            t = r[1][0]
+            continue
+        if t.endswith('[0]') and taint._balanced(t[:-3]):
+            t = t[:-3]
+            continue
+        break
+    if t == 'message._sessionkeys':
+        return '$0', 'True'         # an element of the unfiltered list
+    m = re.match(r'^EACH\((\$[\d.]+) in message\._sessionkeys(?: if (.*))?;\1\)$', t)
+    if m is not None and taint._balanced(m.group(2) or ''):
+        conds = taint._split_top(m.group(2), ' if ') if m.group(2) else ['True']
+        return m.group(1), '(' + ') and ('.join(conds) + ')'
+    if re.match(r'^\$[\d.]+$', t) and s.bound.get(t) == 'message._sessionkeys' and t in s.loops:
+        colltext, paths = s.loops[t]
+        pre = taint._split_top(colltext, ' if ')[1:]
+        alts = []
+        marked = [p for p in paths if any(c[4] is call[4] for c in p[2]) or t in p[1].values()]
+        # the loop variable itself is used after the loop: it is the element of whichever iteration path left the loop (on the state
+        # that left by `break` these are the breaking paths only; without a for-else every path counts, also the exhausting one)
+        for facts, changed, calls, status in (marked or paths):
+            lits = ['(%s)' % c for c in pre]
+            for ft, val, sk in facts:
+                if sk is None:
+                    continue            # except-arm markers: not a decision about the element
+                lits.append('(%s)' % ft if val else 'not (%s)' % ft)
+            alts.append(' and '.join(lits) if lits else 'True')
+        if alts:
+            return t, '(' + ') or ('.join(alts) + ')'
+    if 'message._sessionkeys' in recv or '$' in recv:
+        raise AnalysisError('PGPKey.decrypt: the session-key packet is selected in a way the rule cannot read: %s' % recv[:160])
+    return None
+
+
 def check_pkesk_selection(rep, prog, rid):
+    """PGPKey.decrypt recovers the session key from a packet selected among message._sessionkeys by class, algorithm AND key id.
+    The selecting condition (comprehension filters or the decisions of a selection loop) is read as a boolean function (truth table
+    over its atoms), not as text."""
+    from . import taint
     fi = prog.method('pgpy.pgp', 'PGPKey', 'decrypt')
-    outs = Interp(prog, Scenario(bind={'message.is_encrypted': Const(True)}, inline=noinline,
-                                 axioms={'(self.fingerprint.keyid not in message.encrypters)': False})).run(fi)
+    outs = taint.run_roles(prog, fi, ('self', 'message'), bind={'message.is_encrypted': Const(True)})
+    seen = 0
     for s in outs:
+        if s.raised:
+            continue
         dsk = [c for c in s.calls if c[0].endswith('.decrypt_sk')]
         if not dsk:
-            rep.violation(rid, 'PGPKey.decrypt', 'no decrypt_sk call', 'the key never recovers a session key', where=fi.where)
-            continue
+            continue                # delegation to a subkey / early return: not the path that selects a packet
+        seen += 1
         t = dsk[0][0][:-len('.decrypt_sk')]
-        _m = re.search(r'EACH\((\$\d+) in message\._sessionkeys if (.*);\1\)', t)
-        _v = _m.group(1) if _m else '$1'
-        _c = (_m.group(2) if _m else '').replace(' ', '')
-        conj = bool(_m) and all(x in _c for x in ('isinstance(%s,PKESessionKey)' % _v, '%s.pkalg==self.key_algorithm' % _v)) and \
-            any(x in _c for x in ('%s.encrypter==self.fingerprint.keyid' % _v, 'self.fingerprint.keyid==%s.encrypter' % _v)) and ' or ' not in _m.group(2)
-        rep.check(conj, rid, 'PGPKey.decrypt', 'session-key packet selection %s' % t[:140],
+        sel = _selection_condition(s, t, dsk[0])
+        if sel is None:
+            rep.violation(rid, 'PGPKey.decrypt', 'session-key packet selection %s' % t[:140],
+                          'the packet used must be selected from the message\'s session-key packets by key id and algorithm', where=fi.where, found=t)
+            continue
+        v, cond = sel
+        fn = taint.BoolFn(cond)
+        need = [taint.BoolFn.isinst(v, 'PKESessionKey'), taint.BoolFn.eq(v + '.pkalg', 'self.key_algorithm'),
+                taint.BoolFn.eq(v + '.encrypter', 'self.fingerprint.keyid')]
+        alt = [taint.BoolFn.isinst(v, 'PKESessionKeyV3')] + need[1:]
+        ok = any(all(fn.implies(a) for a in atoms) and fn.holds_when(atoms) for atoms in (need, alt))
+        rep.check(ok, rid, 'PGPKey.decrypt', 'session-key packet selection %s' % cond[:140],
                   'with several recipients the packet used must be the one addressed to this key id (and algorithm)', where=fi.where,
                   expected='isinstance(pk, PKESessionKey) and pk.pkalg == self.key_algorithm and pk.encrypter == self.fingerprint.keyid',
-                  found=t)
+                  found=cond)
+    if not seen:
+        rep.violation(rid, 'PGPKey.decrypt', 'no decrypt_sk call', 'the key never recovers a session key', where=fi.where)
 
 
 def check_hash_object(rep, prog, rid, construct, text, S, where, scenario=None):
@@ -168,8 +625,9 @@ def check_hash_object(rep, prog, rid, construct, text, S, where, scenario=None):
 
 
 def check_cipher_tables(rep, prog, rid):
-    """Symmetric cipher ids and key sizes against the RFC 4880 9.2 / RFC 5581 table (independent oracle)."""
-    from . import tables
+    """Symmetric cipher ids, key sizes and cipher classes against the RFC 4880 9.2 / RFC 5581 table (independent oracle).  The two
+    lookup properties are evaluated per enum member (eval_lookup_method), so the table may be a local dict, a hoisted constant, an
+    if-chain ... - only what each member maps to counts."""
     ci = prog.cls('pgpy.constants', 'SymmetricKeyAlgorithm')
     mem = ci.enum_members()
     want_ids = {'Plaintext': 0, 'IDEA': 1, 'TripleDES': 2, 'CAST5': 3, 'Blowfish': 4, 'AES128': 7, 'AES192': 8, 'AES256': 9,
@@ -177,22 +635,59 @@ def check_cipher_tables(rep, prog, rid):
     bad = {k: (mem.get(k), v) for k, v in want_ids.items() if mem.get(k) != v}
     rep.check(not bad, rid, 'SymmetricKeyAlgorithm', 'ids %s' % bad, 'cipher ids must be the RFC 4880 9.2 / RFC 5581 values', where=ci.where,
               found=bad)
-    ks = tables.table(ci.methods['key_size'].node)
+
+    def per_member(meth):
+        """member -> what the lookup property returns for it (int or text), decided by the interpreter with the receiver pinned to the
+        member: a dict literal, an if-chain, .get(), a hoisted constant or a conditional expression give the same answer."""
+        from . import taint
+        from .sigdata import enum_const
+        f = ci.methods.get(meth)
+        if f is None:
+            raise AnalysisError('SymmetricKeyAlgorithm.%s vanished' % meth)
+        out = {}
+        for m in mem:
+            rets = []
+            for st in taint.run_roles(prog, f, ('self',), args={'self': enum_const(prog, ci.name, m)}):
+                if st.raised is None and st.ret is not None:
+                    v = st.ret.value if isinstance(st.ret, Const) else render(st.ret)
+                    if v not in rets:
+                        rets.append(v)
+            if len(rets) > 1:
+                out[m] = 'undecided: %s' % ' | '.join(map(str, rets[:3]))       # compared with the expected table like any other value
+            elif rets and rets[0] is not None:
+                out[m] = rets[0]
+        return f, out
     want_ks = {'IDEA': 128, 'TripleDES': 192, 'CAST5': 128, 'Blowfish': 128, 'AES128': 128, 'AES192': 192, 'AES256': 256,
                'Twofish256': 256, 'Camellia128': 128, 'Camellia192': 192, 'Camellia256': 256}
-    got = {k.split('.')[-1]: int(v) for k, v in ks.items()}
+    f, got = per_member('key_size')
     rep.check(got == want_ks, rid, 'SymmetricKeyAlgorithm.key_size', 'key sizes %s' % {k: v for k, v in got.items() if want_ks.get(k) != v},
               'cipher key sizes must be the RFC values (a generated session key has this many bits)',
-              where=ci.methods['key_size'].where, expected=want_ks, found=got)
+              where=f.where, expected=want_ks, found=got)
     # the cipher class each id is bound to
-    cf = ci.methods.get('cipher')
-    ct = tables.table(cf.node)
     want_c = {'IDEA': 'algorithms.IDEA', 'TripleDES': 'algorithms.TripleDES', 'CAST5': 'algorithms.CAST5', 'Blowfish': 'algorithms.Blowfish',
               'AES128': 'algorithms.AES', 'AES192': 'algorithms.AES', 'AES256': 'algorithms.AES', 'Camellia128': 'algorithms.Camellia',
               'Camellia192': 'algorithms.Camellia', 'Camellia256': 'algorithms.Camellia'}
-    gotc = {k.split('.')[-1]: v for k, v in ct.items() if k.split('.')[-1] in want_c}
+    cf, gotc = per_member('cipher')
+    gotc = {k: v for k, v in gotc.items() if k in want_c}
     rep.check(gotc == want_c, rid, 'SymmetricKeyAlgorithm.cipher', 'cipher classes', 'each cipher id must be bound to its own block cipher',
               where=cf.where, expected=want_c, found=gotc)
+    # the block size is the bound cipher's own (the zero IV, gen_iv and the SEIPD prefix are sized by it)
+    from . import taint
+    bf = ci.methods.get('block_size')
+    if bf is None:
+        raise AnalysisError('SymmetricKeyAlgorithm.block_size vanished')
+    rets = sorted(set(render(st.ret) for st in taint.run_roles(prog, bf, ('self',)) if st.raised is None))
+    if rets != ['self.cipher.block_size']:
+        want_bs = {'IDEA': 64, 'TripleDES': 64, 'CAST5': 64, 'Blowfish': 64, 'AES128': 128, 'AES192': 128, 'AES256': 128, 'Twofish256': 128,
+                   'Camellia128': 128, 'Camellia192': 128, 'Camellia256': 128}
+        _, gotb = per_member('block_size')
+        gotb = {k: v for k, v in gotb.items() if k in want_bs or isinstance(v, int)}
+        rets = gotb if all(isinstance(v, int) for v in gotb.values()) else rets
+        rep.check(gotb == want_bs, rid, 'SymmetricKeyAlgorithm.block_size', 'block size %s' % rets,
+                  'the block size of a cipher id must be that of the block cipher it is bound to', where=bf.where,
+                  expected='self.cipher.block_size', found=rets)
+    else:
+        rep.ok(rid, 'SymmetricKeyAlgorithm.block_size', 'block size is the bound cipher\'s own')
 
 
 def check_pubkey_derivation(rep, prog, rid):
